@@ -25,6 +25,28 @@ if [ "$RACE" = "race" ]; then
   EXTRA="$S/simrace"
 fi
 "$VERIF/bin/instrument" -repo "$REPO" -out "$S/inst" -overlay "$S/overlay.json" -extra "$EXTRA" > "$S/census.json" || { echo "BUILD: instrumentation failed" >&2; exit 2; }
+# The write-deadline timer of pion/transport (deadline.Deadline) is the one timer of the system that lives outside the
+# package: its expiry callback gets the same scheduling hook as the package's own timer callbacks. The module cache
+# cannot be overlaid, so the build uses a scratch copy of the module (of the version go.mod selects) through a
+# `replace` line of the scratch go.mod; fails closed if the source does not look as expected.
+DLV=$(awk '$1=="github.com/pion/transport/v4"{print $2}' "$REPO/go.mod" | head -1)
+DLM="$(cd "$REPO" && $GO env GOMODCACHE)/github.com/pion/transport/v4@$DLV"
+rm -rf "$S/transport" && cp -r "$DLM" "$S/transport" && chmod -R u+w "$S/transport" || { echo "BUILD: cannot copy pion/transport $DLV" >&2; exit 2; }
+python3 - "$S/transport/deadline/deadline.go" <<'PYEOF' || { echo "BUILD: cannot patch the deadline timer of pion/transport" >&2; exit 2; }
+import sys
+f = sys.argv[1]
+s = open(f).read()
+old = "func (d *Deadline) timeout() {\n"
+if s.count(old) != 1:
+    sys.exit("deadline.go: timeout() not found")
+s = s.replace(old, old + "\tif SimTimerHook != nil {\n\t\tdefer SimTimerHook(d)()\n\t}\n")
+old2 = "\treturn &Deadline{\n\t\tdone: make(chan struct{}),\n\t}\n"
+if s.count(old2) != 1:
+    sys.exit("deadline.go: New() not found")
+s = s.replace(old2, "\td := &Deadline{\n\t\tdone: make(chan struct{}),\n\t}\n\tif SimNewHook != nil {\n\t\tSimNewHook(d)\n\t}\n\n\treturn d\n")
+s += "\n// SimTimerHook is set by the simulation harness of pion/sctp (scratch copy only): the expiry callback parks\n// until the seeded scheduler lets it run.\nvar SimTimerHook func(recv any) func()\n\n// SimNewHook lets the harness give every Deadline a deterministic name (creation order).\nvar SimNewHook func(recv any)\n"
+open(f, 'w').write(s)
+PYEOF
 sed -e 's/^go 1\.[0-9.]*$/go 1.26/' "$REPO/go.mod" > "$S/sim.mod"
 cat >> "$S/sim.mod" <<EOF
 
@@ -32,6 +54,8 @@ require (
 	github.com/anishathalye/porcupine v1.3.0
 	pgregory.net/rapid v1.3.0
 )
+
+replace github.com/pion/transport/v4 => $S/transport
 EOF
 cp "$REPO/go.sum" "$S/sim.sum"
 cat "$VERIF/sim/extra.sum" >> "$S/sim.sum" 2>/dev/null
